@@ -11,6 +11,7 @@ Definition env_ok (env : text * text) : Prop :=
 
 (* constants: normalising the framework's own header names changes nothing *)
 Lemma norm_te : normalize_u k_te = k_te.            Proof. vm_compute. reflexivity. Qed.
+Lemma norm_conn : normalize_u k_conn = k_conn.      Proof. vm_compute. reflexivity. Qed.
 Lemma norm_clen : normalize_u k_clen = k_clen.      Proof. vm_compute. reflexivity. Qed.
 Lemma norm_location : normalize_u k_location = k_location. Proof. vm_compute. reflexivity. Qed.
 Lemma norm_setcookie : normalize_u k_setcookie = k_setcookie. Proof. vm_compute. reflexivity. Qed.
@@ -120,19 +121,62 @@ Proof.
   intros rsn H. destruct rsn as [|c r]; [reflexivity|].
   rewrite <- H. apply forallb_ext_eq. intro y. symmetry. apply fv_char_valid.
 Qed.
-Lemma write_headers_shape : forall c rsn h0 w nz h',
-  write_headers c rsn h0 = inr (w, nz, h') ->
+(* the header assignments write_headers makes on its own *)
+Definition framing_pairs : list (text * text) := [(k_conn, v_close); (k_conn, v_keepalive); (k_te, v_chunked)].
+Lemma framing_sets_spec : forall x c h0,
+  incl (framing_sets x c h0) framing_pairs /\ (length (framing_sets x c h0) <= 2)%nat /\
+  (h_mem k_clen h0 = true -> (length (framing_sets x c h0) <= 1)%nat).
+Proof.
+  intros [[|] [|] [| |]] c h0; unfold framing_sets, disconnect0, framing_pairs;
+    cbn [v11 is_head rconn negb andb orb app apply_sets fold_left];
+    destruct (no_body_code c); cbn [negb andb orb app apply_sets fold_left fst snd];
+    repeat match goal with |- context [h_mem ?a ?b] => destruct (h_mem a b) end;
+    cbn [negb andb orb app length];
+    (split; [intros y Hy; simpl in Hy |- *; tauto|split; [simpl; lia|intro; try discriminate; simpl; lia]]).
+Qed.
+Lemma apply_sets_Forall : forall (P : text * text -> Prop) sets h,
+  Forall P (pairs_of h) -> (forall kv, In kv sets -> P (normalize_u (fst kv), snd kv)) ->
+  Forall P (pairs_of (apply_sets sets h)) /\
+  (length (pairs_of (apply_sets sets h)) <= length (pairs_of h) + length sets)%nat.
+Proof.
+  intros P sets. induction sets as [|[k v] sets IH]; intros h Hh Hs.
+  - split; [exact Hh|simpl; lia].
+  - unfold apply_sets in *. cbn [fold_left fst snd].
+    assert (H1 : Forall P (pairs_of (h_set k v h))).
+    { unfold h_set. apply pairs_d_set_Forall; auto. cbn [map]. constructor; [|constructor].
+      apply (Hs (k, v)). left; reflexivity. }
+    destruct (IH (h_set k v h) H1) as [I1 I2]. { intros kv Hk. apply Hs. right; exact Hk. }
+    split; [exact I1|]. pose proof (pairs_d_set_len (normalize_u k) [v] h) as H2. unfold h_set in *.
+    cbn [length] in *. lia.
+Qed.
+Lemma apply_sets_other : forall sets (h : list (text * list text)) k v,
+  In (k, v) (pairs_of h) -> (forall kv, In kv sets -> text_eqb (normalize_u (fst kv)) k = false) ->
+  In (k, v) (pairs_of (apply_sets sets h)).
+Proof.
+  induction sets as [|[k' v'] sets IH]; intros h k v Hin Hne; [exact Hin|].
+  unfold apply_sets in *. cbn [fold_left fst snd]. apply IH.
+  - unfold h_set. clear IH. pose proof (Hne (k', v') (or_introl eq_refl)) as E. cbn [fst] in E.
+    induction h as [|[k2 v2] h IHh]; [contradiction|].
+    rewrite pairs_of_cons in Hin. cbn [d_set]. apply in_app_or in Hin.
+    destruct (text_eqb (normalize_u k') k2) eqn:E2; rewrite pairs_of_cons; apply in_or_app.
+    + destruct Hin as [Hin|Hin]; [|right; exact Hin].
+      apply in_map_iff in Hin as (y & Ey & _). inversion Ey; subst. congruence.
+    + destruct Hin as [Hin|Hin]; [left; exact Hin|right; apply IHh; auto].
+  - intros kv Hk. apply Hne. right; exact Hk.
+Qed.
+
+Lemma write_headers_shape : forall x c rsn h0 w nz h',
+  write_headers x c rsn h0 = inr (w, nz, h') ->
   exists start, status_line c rsn = Some start /\
     w = block (start :: map header_line (pairs_of h')) /\
     forallb clean_line (start :: map header_line (pairs_of h')) = true /\
     forallb well_formed_header (map header_line (pairs_of h')) = true /\
     forallb valid_hchar rsn = true /\
-    (h' = h0 \/ (h' = h_set k_te v_chunked h0 /\ h_mem k_clen h0 = false)).
+    h' = apply_sets (framing_sets x c h0) h0.
 Proof.
-  intros c rsn h0 w nz h' H. unfold write_headers in H. unfold status_line.
+  intros x c rsn h0 w nz h' H. unfold write_headers in H. unfold status_line.
   destruct (utf8_encode (t "HTTP/1.1 "%string ++ dec c ++ [c_sp] ++ rsn)) as [start|] eqn:Es; [|discriminate].
-  set (chunking := negb (no_body_code c) && negb (h_mem k_clen h0)) in *.
-  set (h := if chunking then h_set k_te v_chunked h0 else h0) in *.
+  set (h := apply_sets (framing_sets x c h0) h0) in *.
   match type of H with match ?e with _ => _ end = _ => destruct e as [ex|]; [|discriminate] end.
   match type of H with (if negb ?b then _ else _) = _ => destruct b eqn:Rs; cbn [negb] in H; [|discriminate] end.
   apply rsn_valid in Rs.
@@ -149,19 +193,33 @@ Proof.
       vm_compute. reflexivity. }
     change (t "HTTP/1.1 "%string ++ dec c ++ [c_sp] ++ rsn) with (72 :: (t "TTP/1.1 "%string ++ dec c ++ [c_sp] ++ rsn)) in Es.
     apply utf8_encode_cons_ascii in Es as [b' Eb]; [|lia]. subst start. exact V. }
-  exists start. split; [reflexivity|]. split; [apply join_block|]. split; [|split; [|split; [exact Rs|]]].
+  exists start. split; [reflexivity|]. split; [apply join_block|]. split; [|split; [|split; [exact Rs|reflexivity]]].
   - cbn [forallb]. rewrite Hstart. cbn [andb]. apply forallb_forall. intros l Hl.
     apply in_map_iff in Hl as ([k v] & <- & Hkv). destruct (TkV _ Hkv) as [T V].
     apply header_line_clean; auto.
   - apply forallb_forall. intros l Hl. apply in_map_iff in Hl as ([k v] & <- & Hkv).
     destruct (TkV _ Hkv) as [T V]. apply header_line_wf. exact T.
-  - unfold h. destruct chunking eqn:Ck; [right|left; reflexivity]. split; [reflexivity|].
-    unfold chunking in Ck. apply andb_true_iff in Ck as [_ Ck]. apply negb_true_iff in Ck. exact Ck.
+Qed.
+
+(* a framing pair satisfies P as soon as the three constants do *)
+Lemma framing_step : forall (P : text * text -> Prop) x c h0,
+  Forall P (pairs_of h0) -> P (k_conn, v_close) -> P (k_conn, v_keepalive) -> P (k_te, v_chunked) ->
+  let h' := apply_sets (framing_sets x c h0) h0 in
+  Forall P (pairs_of h') /\
+  (length (pairs_of h') <= length (pairs_of h0) + 2)%nat /\
+  (h_mem k_clen h0 = true -> (length (pairs_of h') <= length (pairs_of h0) + 1)%nat).
+Proof.
+  intros P x c h0 Hh P1 P2 P3 h'. destruct (framing_sets_spec x c h0) as (Inc & L2 & L1).
+  destruct (apply_sets_Forall P (framing_sets x c h0) h0 Hh) as [F Ln].
+  { intros kv Hk. apply Inc in Hk. unfold framing_pairs in Hk.
+    destruct Hk as [<-|[<-|[<-|[]]]]; cbn [fst snd]; rewrite ?norm_conn, ?norm_te; auto. }
+  split; [exact F|]. split; [unfold h'; lia|]. intro M. specialize (L1 M). unfold h'. lia.
 Qed.
 
 Section Inv.
   Variable env : text * text.
   Hypothesis Henv : env_ok env.
+  Variable cx : ctx.
 
   Definition base : list text := default_lines env ++ framing_lines.
 
@@ -187,7 +245,7 @@ Section Inv.
       (exists c r, In c C /\ In r R /\ status_line c r = Some sl) /\
       forallb well_formed_header hls = true /\
       Forall (fun l => In l (base ++ A)) hls /\
-      (length hls <= 4 + length A)%nat.
+      (length hls <= 5 + length A)%nat.
 
   Definition Inv (A : list text) (C : list N) (R : list text) (s : st) : Prop :=
     (written s = false -> wire s = [] /\ Pre A C R s) /\
@@ -293,6 +351,32 @@ Section Inv.
     - inversion H; subst r s'. destruct n; cbn [entitled]; rewrite app_nil_r; auto.
   Qed.
 
+  Lemma set_header_num_pre : forall A C R n v s r s', set_header_num n v s = (r, s') -> Pre A C R s ->
+    Pre (A ++ entitled (SetHeaderNum n v) r) C R s' /\ written s' = written s /\ wire s' = wire s.
+  Proof.
+    intros A C R n v s r s' H P. unfold set_header_num in H. destruct n as [nt|nb].
+    - inversion H; subst r s'. clear H. cbn [entitled with_hdrs written wire]. split; [|split; reflexivity].
+      destruct P as [H1 H2 H3 H4 H5 H6 H7]. constructor; cbn [with_hdrs hdrs cookies code reason]; auto.
+      + unfold h_set. apply pairs_d_set_Forall.
+        * eapply Forall_impl; [|exact H1]. intro kv. apply HP_mono.
+        * cbn [map]. constructor; [|constructor]. split; [apply dec_valid|].
+          apply in_or_app. right. apply in_or_app. right. left. reflexivity.
+      + eapply Forall_impl; [|exact H2]. intros nm Hc. unfold CP in *. apply in_or_app; auto.
+      + unfold h_set. pose proof (pairs_d_set_len (normalize_u nt) [dec v] (hdrs s)).
+        rewrite app_length. simpl in *. lia.
+    - inversion H; subst r s'. cbn [entitled]. rewrite app_nil_r. auto.
+  Qed.
+  Lemma clear_header_pre : forall A C R n s r s', clear_header n s = (r, s') -> Pre A C R s ->
+    Pre (A ++ entitled (ClearHeader n) r) C R s' /\ written s' = written s /\ wire s' = wire s.
+  Proof.
+    intros A C R n s r s' H P. unfold clear_header in H. cbn [entitled]. rewrite app_nil_r.
+    destruct n as [nt|nb]; inversion H; subst r s'; auto.
+    destruct (h_mem nt (hdrs s)); auto. cbn [with_hdrs written wire]. split; [|split; reflexivity].
+    destruct P as [H1 H2 H3 H4 H5 H6 H7]. constructor; cbn [with_hdrs hdrs cookies code reason]; auto.
+    - apply pairs_d_del_Forall. exact H1.
+    - pose proof (pairs_d_del_len (normalize_u nt) (hdrs s)). lia.
+  Qed.
+
   (* ---------- set_status ---------- *)
   Lemma set_status_pre : forall A C R c rr s r s', set_status c rr s = (r, s') -> Pre A C R s ->
     Pre A (C ++ codes_of (SetStatus c rr)) (R ++ reasons_of (SetStatus c rr)) s'
@@ -321,11 +405,11 @@ Section Inv.
     intros [[x|b]|] H; cbn [check_attr attr_clean] in *; auto; try discriminate.
     destruct (existsb cookie_attr_bad x); [discriminate|reflexivity].
   Qed.
-  Lemma set_cookie_pre : forall A C R n v d p ss s r s', set_cookie n v d p ss s = (r, s') -> Pre A C R s ->
-    Pre (A ++ entitled (SetCookie n v d p ss) r) C R s' /\ written s' = written s /\ wire s' = wire s.
+  Lemma set_cookie_pre : forall A C R n v d p ss fl s r s', set_cookie n v d p ss fl s = (r, s') -> Pre A C R s ->
+    Pre (A ++ entitled (SetCookie n v d p ss fl) r) C R s' /\ written s' = written s /\ wire s' = wire s.
   Proof.
-    intros A C R n v d p ss s r s' H P. unfold set_cookie in H.
-    assert (Same : forall e, Pre (A ++ entitled (SetCookie n v d p ss) (Err e)) C R s /\ written s = written s /\ wire s = wire s).
+    intros A C R n v d p ss fl s r s' H P. unfold set_cookie in H.
+    assert (Same : forall e, Pre (A ++ entitled (SetCookie n v d p ss fl) (Err e)) C R s /\ written s = written s /\ wire s = wire s).
     { intro e. cbn [entitled]. rewrite app_nil_r. auto. }
     destruct (native_str n) as [name|] eqn:En; [|inversion H; subst; apply Same].
     destruct (native_str v) as [value|] eqn:Ev; [|inversion H; subst; apply Same].
@@ -336,7 +420,7 @@ Section Inv.
     destruct (check_attr ss) eqn:K3; [|inversion H; subst; apply Same].
     apply check_attr_clean in K1, K2, K3.
     destruct (negb (morsel_key_ok name)); [inversion H; subst; apply Same|].
-    set (m := mkMorsel name (cookie_quote value) (attr_val d) (attr_val p) (attr_val ss)) in *.
+    set (m := mkMorsel name (cookie_quote value) (attr_val d) (attr_val p) (attr_val ss) fl) in *.
     destruct P as [H1 H2 H3 H4 H5 H6 H7].
     destruct (forallb valid_hchar (output_string m)).
     - inversion H; subst r s'. clear H Same. cbn [entitled written wire]. rewrite En, Ev.
@@ -384,24 +468,23 @@ Section Inv.
   Proof. auto. Qed.
 
   Lemma write_headers_good : forall A C R c rsn h0 w nz h' n,
-    write_headers c rsn h0 = inr (w, nz, h') ->
+    write_headers cx c rsn h0 = inr (w, nz, h') ->
     Forall (HP A) (pairs_of h0) -> forallb valid_hchar rsn = true -> In c C -> In rsn R ->
-    ((h_mem k_clen h0 = true /\ length (pairs_of h0) <= n) \/ (S (length (pairs_of h0)) <= n))%nat ->
-    (n <= 4 + length A)%nat ->
+    ((h_mem k_clen h0 = true /\ length (pairs_of h0) + 1 <= n) \/ (length (pairs_of h0) + 2 <= n))%nat ->
+    (n <= 5 + length A)%nat ->
     good_wire A C R w.
   Proof.
     intros A C R c rsn h0 w nz h' n H Hh Hr Hc HR Hn HnA.
-    apply write_headers_shape in H as (start & Hs & Ew & Cl & Wf & _ & Hte).
-    assert (HPh : Forall (HP A) (pairs_of h') /\ (length (pairs_of h') <= n)%nat).
-    { destruct Hte as [->|[-> Hm]].
-      - split; [exact Hh|]. destruct Hn as [[_ Hn]|Hn]; lia.
-      - unfold h_set. rewrite norm_te. split.
-        + apply pairs_d_set_Forall; auto. cbn [map]. constructor; [|constructor]. split.
-          * vm_compute. reflexivity.
-          * apply in_or_app. left. unfold base. apply in_or_app. right. left. reflexivity.
-        + destruct Hn as [[Hm' _]|Hn]; [congruence|].
-          pose proof (pairs_d_set_len k_te [v_chunked] h0). simpl in *. lia. }
-    destruct HPh as [HPh HLh].
+    apply write_headers_shape in H as (start & Hs & Ew & Cl & Wf & _ & Eh).
+    assert (FL : forall l, In l framing_lines -> In l (base ++ A)).
+    { intros l Hl. apply in_or_app. left. unfold base. apply in_or_app. right. exact Hl. }
+    destruct (framing_step (HP A) cx c h0 Hh) as (HPh & L2 & L1).
+    { split; [vm_compute; reflexivity|]. apply FL. unfold framing_lines, conn_lines. simpl. tauto. }
+    { split; [vm_compute; reflexivity|]. apply FL. unfold framing_lines, conn_lines. simpl. tauto. }
+    { split; [vm_compute; reflexivity|]. apply FL. unfold framing_lines, conn_lines. simpl. tauto. }
+    rewrite <- Eh in *.
+    assert (HLh : (length (pairs_of h') <= n)%nat).
+    { destruct Hn as [[Hm Hn]|Hn]; [specialize (L1 Hm)|]; lia. }
     exists start, (map header_line (pairs_of h')).
     split; [exact Ew|]. split; [exact Cl|]. split; [exists c, rsn; auto|]. split; [exact Wf|]. split.
     - apply Forall_forall. intros l Hl. apply in_map_iff in Hl as (kv & <- & Hkv).
@@ -410,7 +493,7 @@ Section Inv.
   Qed.
 
   Lemma flush_good : forall A C R s r s' nz,
-    flush_headers s = (r, s', nz) -> wire s = [] ->
+    flush_headers cx s = (r, s', nz) -> wire s = [] ->
     Forall (HP A) (pairs_of (hdrs s)) -> Forall (CP A) (cookies s) ->
     In (code s) C -> In (reason s) R -> forallb valid_hchar (reason s) = true ->
     ((h_mem k_clen (hdrs s) = true /\ length (pairs_of (hdrs s)) + length (cookies s) <= 4 + length A) \/
@@ -421,10 +504,10 @@ Section Inv.
     intros A C R s r s' nz H W Hh Hc Hcode Hreason Hrc Hn. unfold flush_headers in H.
     destruct (add_cookies (cookies s) (hdrs s)) as [[|e] h] eqn:Ac.
     - destruct (add_cookies_ok A _ _ _ Ac Hc Hh) as (I1 & I2 & I3).
-      destruct (write_headers (code s) (reason s) h) as [e|[[w nz'] h']] eqn:Wh.
+      destruct (write_headers cx (code s) (reason s) h) as [e|[[w nz'] h']] eqn:Wh.
       + inversion H; subst. cbn [written wire]. split; auto. left. repeat split; auto. discriminate.
       + inversion H; subst. cbn [written wire]. split; auto. right. split; auto. rewrite W. cbn [app].
-        eapply write_headers_good with (n := (4 + length A)%nat); eauto.
+        eapply write_headers_good with (n := (5 + length A)%nat); eauto.
         destruct Hn as [[Hm Hl]|Hl].
         * left. split; [apply I3; exact Hm|lia].
         * right. lia.
